@@ -94,7 +94,7 @@ theorem names_disjoint (hnd : (namesOf fs).Nodup) : ∀ n, n ∈ namesOf (fsA fs
 /-- **One element, two owners**: if the single server answers `r` for the selected fields on entity
     `e`, then `A` (asked for the helper id and its own fields) and `B` (asked for its own fields,
     with `$id` bound) answer shares `ra`, `rb` with `ra ++ rb` a permutation of `r`. -/
-theorem entity_shares (h : Fam c A B T q fs) (SA SB : Schema) (D : Data) (e : Entity) (r : List (String × J))
+theorem entity_sharesT (h : FamT c A B T q fs) (SA SB : Schema) (D : Data) (e : Entity) (r : List (String × J))
     (hnne : ∀ n ∈ namesOf fs, n ≠ "") (hine : e.id ≠ "")
     (hrefM : evalSels (envOf c.schema D []) (.ent e.type e.id e.fields) (leaves fs) [] = some r) :
     ∃ ra rb, (fsA fs).mapM (fval (envOf c.schema D []) (.ent e.type e.id e.fields)) = some ra
@@ -143,8 +143,22 @@ theorem entity_shares (h : Fam c A B T q fs) (SA SB : Schema) (D : Data) (e : En
     exact h.hne this
   exact ⟨ra, rb, hra', hrb', hperm, hownA, hvalB, fval_keys _ _ _ _ hra', fval_keys _ _ _ _ hrb', hne⟩
 
+/-- `entity_sharesT` for a member of the family at the `Query` root (only the hypotheses about the
+    type `T` are used: `FamT`) -/
+theorem entity_shares (h : Fam c A B T q fs) (SA SB : Schema) (D : Data) (e : Entity) (r : List (String × J))
+    (hnne : ∀ n ∈ namesOf fs, n ≠ "") (hine : e.id ≠ "")
+    (hrefM : evalSels (envOf c.schema D []) (.ent e.type e.id e.fields) (leaves fs) [] = some r) :
+    ∃ ra rb, (fsA fs).mapM (fval (envOf c.schema D []) (.ent e.type e.id e.fields)) = some ra
+      ∧ (fsB fs).mapM (fval (envOf c.schema D []) (.ent e.type e.id e.fields)) = some rb
+      ∧ (ra ++ rb).Perm r
+      ∧ evalSels (envOf SA D []) (.ent e.type e.id e.fields) (idField :: leaves (fsA fs)) []
+          = some (("id", .str e.id) :: ra)
+      ∧ evalSels (envOf SB D [("id", .str e.id)]) (.ent e.type e.id e.fields) (leaves (fsB fs)) [] = some rb
+      ∧ J.keys ra = namesOf (fsA fs) ∧ J.keys rb = namesOf (fsB fs) ∧ ra ++ rb ≠ [] :=
+  entity_sharesT h.toFamT SA SB D e r hnne hine hrefM
+
 /-- side conditions on the keys of the two shares of one element -/
-theorem shares_good (h : Fam c A B T q fs) (i : String) (ra rb : List (String × J))
+theorem shares_goodT (h : FamT c A B T q fs) (i : String) (ra rb : List (String × J))
     (hine : i ≠ "")
     (hkA : J.keys ra = namesOf (fsA fs)) (hkB : J.keys rb = namesOf (fsB fs)) (hne : ra ++ rb ≠ []) :
     (i ≠ "" ∧ (J.keys rb).Nodup ∧ ∀ k ∈ J.keys rb, k ∉ J.keys (("id", J.str i) :: ra))
@@ -173,6 +187,13 @@ theorem shares_good (h : Fam c A B T q fs) (i : String) (ra rb : List (String ×
     simp [isBuiltinName] at this
   exact ⟨⟨hine, hbnd, hdisj⟩, hid, htn, hne⟩
 
+theorem shares_good (h : Fam c A B T q fs) (i : String) (ra rb : List (String × J))
+    (hine : i ≠ "")
+    (hkA : J.keys ra = namesOf (fsA fs)) (hkB : J.keys rb = namesOf (fsB fs)) (hne : ra ++ rb ≠ []) :
+    (i ≠ "" ∧ (J.keys rb).Nodup ∧ ∀ k ∈ J.keys rb, k ∉ J.keys (("id", J.str i) :: ra))
+      ∧ GoodElem (ra ++ rb) :=
+  shares_goodT h.toFamT i ra rb hine hkA hkB hne
+
 /-- the share of the single-server answer for the fields `sub` on the entity with id `i` -/
 def shareOf (S : Schema) (D : Data) (sub : List FieldSpec) (i : String) : List (String × J) :=
   match D.entity? i with
@@ -184,9 +205,10 @@ theorem shareOf_eq (S : Schema) (D : Data) (sub : List FieldSpec) (e : Entity) (
     shareOf S D sub e.id = r := by
   simp [shareOf, hent, hr]
 
-/-- `flat_list_one_hop` with the calls made explicit (`callsOf`): one call to `A`, and ONE batch to
-    `B` — a lookup per distinct id — iff `B` owns a selected field and the list is not empty -/
-theorem flat_list_one_hop_calls (h : Fam c A B T q fs)
+/-- `flat_list_one_hop` with the calls made explicit (`callsOf`) and the SHARING made explicit: the
+    element the gateway returns at a position is a function `dOf` of the ID at that position (the
+    one answer of `B` for an id is stitched in wherever that id stands) -/
+theorem flat_list_one_hop_shared (h : Fam c A B T q fs)
     (svcs : List Svc) (SA SB : Schema) (D : Data) (es : List Entity) (rs : List (List (String × J)))
     (hq1 : '#' ∉ q.toList) (hq2 : ':' ∉ q.toList) (hqne : q ≠ "")
     (hi : ∀ e ∈ es, e.id ≠ "")
@@ -196,11 +218,12 @@ theorem flat_list_one_hop_calls (h : Fam c A B T q fs)
     (hroot : dlookup q (D.root "Query") = some (.list (es.map (fun e => DVal.ref e.id))))
     (hent : ∀ e ∈ es, D.entity? e.id = some e ∧ e.type = T)
     (href : Spec.eval c.schema D ⟨.query, "", [], [QL T q fs]⟩ [] = some (.obj [(q, .arr (rs.map J.obj))])) :
-    ∃ (ds : List (List (String × J))),
+    ∃ (dOf : String → List (String × J)),
       gateway c {} ⟨.query, "", [], [QL T q fs]⟩ none (specDownstream svcs D)
-        = .ok ⟨some [(q, .arr (ds.map J.obj))], [], callsOf c A B T q fs (es.map (fun e => e.id))⟩
-      ∧ ds.length = es.length ∧ rs.length = es.length
-      ∧ ∀ (j : Nat) (d r : List (String × J)), ds[j]? = some d → rs[j]? = some r → d.Perm r := by
+        = .ok ⟨some [(q, .arr ((es.map (fun e => dOf e.id)).map J.obj))], [],
+               callsOf c A B T q fs (es.map (fun e => e.id))⟩
+      ∧ rs.length = es.length
+      ∧ ∀ (j : Nat) (e : Entity) (r : List (String × J)), es[j]? = some e → rs[j]? = some r → (dOf e.id).Perm r := by
   have hent1 : ∀ e ∈ es, D.entity? e.id = some e := fun e he => (hent e he).1
   -- the reference answer, element by element
   let g : Entity → Option (List (String × J)) :=
@@ -280,17 +303,41 @@ theorem flat_list_one_hop_calls (h : Fam c A B T q fs)
     obtain ⟨e, he, rfl⟩ := hmemids i hi'
     exact (hper e he).2.2.2.2
   have hg := stage_gateway h (specDownstream svcs D) ids aOf bOf hq1 hq2 hids hA hB hb0 hd
-  refine ⟨ids.map (fun i => aOf i ++ bOf i), ?_, by simp [ids], by simp [hrs], ?_⟩
+  refine ⟨fun i => aOf i ++ bOf i, ?_, by simp [hrs], ?_⟩
   · rw [hg]; simp only [List.map_map, ids]; rfl
-  · intro j d r hdj hrj
+  · intro j e r hej hrj
     rw [hrs] at hrj
-    simp only [ids, List.map_map, List.getElem?_map, Option.map_eq_some_iff, Function.comp] at hdj hrj
-    obtain ⟨e, hej, rfl⟩ := hdj
+    simp only [List.getElem?_map, Option.map_eq_some_iff] at hrj
     obtain ⟨e', hej', rfl⟩ := hrj
     rw [hej] at hej'
     injection hej' with hee
     subst hee
     exact (hper e (List.mem_of_getElem? hej)).1
+
+/-- `flat_list_one_hop` with the calls made explicit (`callsOf`): one call to `A`, and ONE batch to
+    `B` — a lookup per distinct id — iff `B` owns a selected field and the list is not empty -/
+theorem flat_list_one_hop_calls (h : Fam c A B T q fs)
+    (svcs : List Svc) (SA SB : Schema) (D : Data) (es : List Entity) (rs : List (List (String × J)))
+    (hq1 : '#' ∉ q.toList) (hq2 : ':' ∉ q.toList) (hqne : q ≠ "")
+    (hi : ∀ e ∈ es, e.id ≠ "")
+    (hnne : ∀ n ∈ namesOf fs, n ≠ "")
+    (hsA : svcs.find? (·.url == A) = some ⟨A, SA⟩) (hsB : svcs.find? (·.url == B) = some ⟨B, SB⟩)
+    (hSB : ∃ td, SB.type? T = some td ∧ td.kind = .object)
+    (hroot : dlookup q (D.root "Query") = some (.list (es.map (fun e => DVal.ref e.id))))
+    (hent : ∀ e ∈ es, D.entity? e.id = some e ∧ e.type = T)
+    (href : Spec.eval c.schema D ⟨.query, "", [], [QL T q fs]⟩ [] = some (.obj [(q, .arr (rs.map J.obj))])) :
+    ∃ (ds : List (List (String × J))),
+      gateway c {} ⟨.query, "", [], [QL T q fs]⟩ none (specDownstream svcs D)
+        = .ok ⟨some [(q, .arr (ds.map J.obj))], [], callsOf c A B T q fs (es.map (fun e => e.id))⟩
+      ∧ ds.length = es.length ∧ rs.length = es.length
+      ∧ ∀ (j : Nat) (d r : List (String × J)), ds[j]? = some d → rs[j]? = some r → d.Perm r := by
+  obtain ⟨dOf, hg, hlen, hel⟩ :=
+    flat_list_one_hop_shared h svcs SA SB D es rs hq1 hq2 hqne hi hnne hsA hsB hSB hroot hent href
+  refine ⟨es.map (fun e => dOf e.id), hg, by simp, hlen, ?_⟩
+  intro j d r hdj hrj
+  simp only [List.getElem?_map, Option.map_eq_some_iff] at hdj
+  obtain ⟨e, hej, rfl⟩ := hdj
+  exact hel j e r hej hrj
 
 /-- **C01 on the flat one-hop family with a LIST-valued root field.** See `Props/C01FlatList.lean`
     (`C01_flat_list_one_hop`) for the statement in words. -/
